@@ -102,7 +102,50 @@ HISTORY.update({
     "b3_C20_1": "missed by C20 as built (caught by nothing); C09-N1 who-may-construct and C20-R5 re-initialisation added",
     "b3_C20_2": "caught as built", "b3_C20_3": "caught as built",
 })
+HISTORY.update({
+    # fourth batch (two per property, after the evaluation rewrites prompted by the refactoring corpus): 14 caught, 10 refused, 14 missed as built
+    "b4_C01_1": "missed as built: the mismatch sat in a private intermediate (`_second_expression = 3/2*(radius - _root)`), issues of private statements were dropped and the "
+                "relation built from them counted as 'reported elsewhere'; such issues are now reported under the relation that depends on them",
+    "b4_C01_2": "caught as built",
+    "b4_C02_1": "caught as built (by C11-T2: scale_vector in a curvilinear system)",
+    "b4_C02_2": "missed as built (the only float exponents of the tree family were 2.0-like); C05/C06 gained exponents that are no small fraction (1.6667, 0.1) and the model of "
+                "nsimplify(tolerance=) / Rational(Float)",
+    "b4_C03_1": "caught as built", "b4_C03_2": "MISSED, as built and now: a derivation check compares two solve() results with == instead of expr_equals; whether two such trees are "
+                "identical depends on SymPy's name-ordered canonical forms, which nothing in the source bounds (the name-order clause of C03 is declared not applicable; 30 such "
+                "asserts exist in the pinned tree)",
+    "b4_C04_1": "refused as built (exit 2: unknown attribute has_any_dimension); caught after the gate reader followed properties of QuantityVector into vectors.py and K3 got "
+                "vectors whose own dimension is angle",
+    "b4_C04_2": "refused as built by C05 (exit 2: bool() of a predicate); caught by C05-S3 after the evaluator learnt bool()",
+    "b4_C05_1": "caught as built", "b4_C05_2": "missed as built (P7 looked at one _eval_is_ge); C02-P7 now decides every dispatch overload: one that orders a quantity against a bare "
+                "number must refuse a dimensional quantity",
+    "b4_C06_1": "missed as built; caught after the model distinguished Rational(Float) (binary value) from nsimplify(rational=True) (decimal value) and the family got the exponent 0.1",
+    "b4_C06_2": "caught as built (K5)",
+    "b4_C07_1": "caught as built", "b4_C07_2": "missed as built (evalf was modelled without its options); U6 now keeps the options: chop=True nobody asked for is another function",
+    "b4_C08_1": "caught as built (C05-S4)", "b4_C08_2": "refused as built (exit 2: Dimension ** n in the gate reader); caught by C04-K4 after dimension powers were modelled",
+    "b4_C09_1": "caught as built (I3)", "b4_C09_2": "missed as built; rule C09-N7 added (a symbol-making function called from a constructor is not memoised)",
+    "b4_C10_1": "refused as built (exit 2: Vector.rebase); caught after the reader modelled a successful re-expression in a related system",
+    "b4_C10_2": "refused as built (exit 2: Abs of a symbol); caught after |x| became one more indeterminate of the generic components",
+    "b4_C11_2": "refused as built (exit 2: CoordinateSystem.is_angle_component); caught after static methods of other modules were followed and every evaluated call was "
+                "checked for operands changed in place",
+    "b4_C12_1": "caught as built", "b4_C12_2": "caught as built",
+    "b4_C13_1": "caught as built (C12)", "b4_C13_2": "caught as built",
+    "b4_C14_1": "missed as built (the compound operand was only tried in first position); every position now",
+    "b4_C14_2": "missed as built (VectorNorm.__new__ was not covered); rule C14-R6 added (absolute homogeneity by evaluation)",
+    "b4_C15_1": "refused as built (exit 2: AppliedPoint.evaluate); caught after methods of AppliedPoint were followed into points/__init__.py",
+    "b4_C15_2": "caught as built",
+    "b4_C16_1": "refused as built (exit 2: getattr with a default); caught after the readers declared which model objects have .lhs/.rhs - and a bare dot product became one of the inputs",
+    "b4_C16_2": "refused as built (exit 2: dict.update); caught after Q4 evaluated a call without keywords after one with keywords on the same reader",
+    "b4_C18_1": "missed as built; rule C18-L12 added (an override of SymPy's bracket predicates only adds brackets)",
+    "b4_C18_2": "missed as built; rule C18-L13 added (no printer built from a caller's settings is kept across calls)",
+    "b4_C19_1": "missed as built (the page composer was not covered); rule C19-D10 added (print_law / print_package evaluated for every combination of empty and non-empty parts)",
+    "b4_C19_2": "caught as built",
+    "b4_C20_1": "missed as built (a constant without a reference value was skipped); the reference table now knows ~30 more CODATA names and an unknown constant makes the check refuse",
+    "b4_C20_2": "REFUSED (exit 2), as built and now: constants defined through a new python helper (quantity_from_si) are not folded; the check refuses instead of passing them unseen",
+})
 DROPPED = {
+    "b4_C11_1": "obsolete: the change (ScalarField.rebase returns a field that stores its value) broke C11 only through a genuine defect of the pinned tree it exposed - fields that "
+                "store a value answered points of another kind instead of refusing them. That defect was repaired in 8988336 (C11-T4 now covers stored-value fields); on the "
+                "repaired tree the demonstration passes with the patch applied. Self-test twins: b5-stored-value-field-answers-before-refusing-regression / b5-rebase-returns-stored-value-field-ok",
     "b3_C06_1": "obsolete: the change (Symbolic.__init__ keeps the dimension of the first initialisation of a cached instance) broke C06 only through the wrapper-alias "
                 "defect of the pinned tree - two different arguments that print alike being ONE cached object. That defect was repaired in 6afdd9a; on the repaired tree "
                 "every wrapper is initialised once and the demonstration passes with the patch applied",
@@ -132,8 +175,8 @@ def main() -> int:
     out = VERIF / "seeded"
     out.mkdir(exist_ok=True)
     rows = []
-    for sd in sorted(root.glob("seed_C??_?")) + sorted(root.glob("seed3_C??_?")):
-        sid = sd.name[5:] if sd.name.startswith("seed_") else "b3_" + sd.name[6:]
+    for sd in sorted(root.glob("seed_C??_?")) + sorted(root.glob("seed3_C??_?")) + sorted(root.glob("seed4_C??_?")):
+        sid = sd.name[5:] if sd.name.startswith("seed_") else ("b3_" if sd.name.startswith("seed3_") else "b4_") + sd.name[6:]
         if sid in DROPPED:
             rows.append((sid, "dropped", DROPPED[sid]))
             continue
